@@ -1,7 +1,7 @@
 """C02 - non-dominated sorting assigns every individual its true Pareto rank."""
 from hypothesis import strategies as st
 
-from ..core import Clause, Violation, guard
+from ..core import Clause, Enum, Violation, guard
 from .. import oracles as O
 from ..harness import params
 
@@ -124,6 +124,19 @@ def check_sort(case):
         half = [i for i in case["order2"] if i % 2 == 0]
         sel.fast_nondominated_sorting([objs[i] for i in half])
         sub = [objs[i].features.get("front_number") for i in half]
+        # new individuals built from an already sorted template with `features.copy()` (the idiom of the repository's
+        # own operator tests): the copies share the template's bookkeeping lists until the sorter replaces them
+        clones = []
+        for i in range(n):
+            ind = Individual([float(i)])
+            ind.features = objs[0].features.copy()
+            ind.costs_signed = list(costs[i])
+            clones.append(ind)
+        sel.fast_nondominated_sorting(list(clones))
+        cloned = [o.features.get("front_number") for o in clones]
+    if cloned != exp:
+        raise Violation("rank", "sort-of-feature-copies", "individuals whose features were copied (dict.copy) from a sorted "
+                        "individual got %r, true ranks %r (%r)" % (cloned, exp, costs))
     if edited != exp_edit:
         raise Violation("rank", "resort-after-inplace-edit", "after changing one cost in place the same selector gave %r, "
                         "true ranks %r" % (edited, exp_edit))
@@ -174,10 +187,27 @@ def decode_bytes(fdp):
     return {"costs": costs, "order2": list(range(n - 1, -1, -1))}
 
 
+def big_items(tier):
+    """populations beyond 256 members (NSGA-II sorts 2N individuals): long chains, layered fronts, seeded clouds"""
+    import random as _r
+    for n in ((257, 300) if tier == "quick" else (257, 258, 300, 513, 700)):
+        yield {"costs": [[float(i), float(i), False] for i in range(n)], "order2": list(range(n - 1, -1, -1))}
+        yield {"costs": [[float(i // 3 + i % 3), float(i // 3 + 2 - i % 3), False] for i in range(n)],
+               "order2": list(range(n - 1, -1, -1))}
+        rng = _r.Random(n)
+        yield {"costs": [[float(rng.randint(0, 40)), float(rng.randint(0, 40)), rng.random() < 0.1] for _ in range(n)],
+               "order2": list(range(n - 1, -1, -1))}
+
+
 FUZZ_DECODERS = {"rank": decode_bytes}
 FUZZ = ["rank"]      # clauses that get an atheris campaign in the thorough tier
 
 CLAUSES = [
     Clause("rank", population(24), check_sort, quick=3000, thorough=12000, quick_shards=4, simplify=simplify),
     Clause("rank-large", population(60), check_sort, quick=300, thorough=3000, quick_shards=2, simplify=simplify),
+]
+ENUMS = [
+    Enum("rank-beyond-256", big_items, check_sort, tiers=("quick", "thorough"), chunk=1,
+         exhaustive_note="fixed populations of 257..300 (thorough ..700) members: a total chain, layered fronts of three, "
+                         "a seeded grid cloud with infeasible members"),
 ]
